@@ -103,7 +103,7 @@ def h2(cx):
     """never early: coroutine bodies of Scheduler::schedule (pre-transform MIR)"""
     F = cx.facts
     res = []
-    cors = [fn for fn in F.fns.values() if fn['kind'] == 'coroutine' and 'schedule' in fn['key']]
+    cors = [fn for fn in F.fns.values() if fn['kind'] == 'coroutine' and '::schedule::' in fn['key']]      # (not `scheduler::…`)
     for fn in sorted(cors, key=lambda f: f['key']):
         g = cx.graph(fn['key'])
         label = cx.label(fn)
@@ -146,6 +146,33 @@ def h2(cx):
                                fn['span'], witness(g, pred, bad[0], interesting_default) if bad else []))
         else:
             res.append(Finding(ID, 'H2', label, True, 'Some(delay): new_timer(delay) awaited to Ready before the first poll of the task', fn['span']))
+    # ... and what that task future captures is what schedule() was given: the delay (and the task) reach the coroutine unmodified —
+    # a delay filtered, rounded or defaulted on the way (`delay.filter(|d| d.as_millis() > 0)`) makes "Some(delay)" above a different delay
+    from ..expr import walk
+    m = 0
+    for im in F.impls_of('scheduler::Scheduler'):
+        fn = F.impl_fn(im, 'schedule')
+        if fn is None:
+            continue
+        g = cx.graph(fn['key'])
+        caps = []
+        for n in g.nodes:
+            for e in list(n.get('args') or []) + [n.get('rhs')]:
+                if e is None:
+                    continue
+                for x in walk(e):
+                    if x[0] == 'agg' and x[1] in ('coroutine', 'closure', 'coroutine_closure') and 'schedule' in str(x[2]) and x not in caps:
+                        caps.append(x)
+        if not caps:
+            continue
+        m += 1
+        badc = [o for c in caps for o in c[3] if strip(o)[0] != 'arg']
+        res.append(Finding(ID, 'H2', cx.label(fn) + '|captures', not badc,
+                           'the task future captures the delay and the task exactly as they were passed to schedule()' if not badc else
+                           'the task future does not capture what schedule() was given but %s: the delay that is awaited is not the delay that was asked for' % render(badc[0])[:90],
+                           fn['span']))
+    if m < 2:
+        res.append(Finding(ID, 'H2', 'floor:captures', False, 'expected >= 2 schedule() bodies that build a task future, found %d' % m))
     if len(cors) < 2:
         res.append(Finding(ID, 'H2', 'floor', False, 'expected >= 2 schedule coroutines, found %d' % len(cors)))
     return res
